@@ -218,7 +218,13 @@ def execute(mat, ctx):
                     return "".join(rng.choice(["N", rng.choice("ACGT")]) for _ in range(k))
                 return "".join(rng.choice(sorted(IUPAC)) for _ in range(k))
             role = [V, M][j % 2]
-            classes.append(type(str("User%s%d" % (mat["enzyme"], j)), (AbstractPart, role), {"cutter": enz, "signature": (sig(), sig())}))
+            sg = (sig(), sig())
+            if j % 5 >= 3:
+                # a signature written in lower or mixed case (plain nucleotides only: a lower-case ambiguity code is not a code)
+                spell = (lambda t: t.lower()) if j % 5 == 3 else (lambda t: "".join(c.lower() if i % 2 else c for i, c in enumerate(t)))
+                sg = tuple("".join(spell(c) if c in "ACGT" else c for c in t) for t in sg)
+                ctx.count("c05_user_signatures_not_upper_case")
+            classes.append(type(str("User%s%d" % (mat["enzyme"], j)), (AbstractPart, role), {"cutter": enz, "signature": sg}))
         for P in classes:
             sibs = [q for q in classes if q is not P and generic_for(q) is generic_for(P)]
             for mode, text in _texts(rng, P, sibs, mat["count"]):
@@ -346,7 +352,8 @@ def execute(mat, ctx):
             concrete_base = rng.random() < 0.3
             attrs = {"cutter": enz}
             if concrete_base:
-                attrs["signature"] = ("N" * k, "N" * k)
+                # a concrete family base: a catch-all (all N), or a type of its own whose subtypes do not refine its signature
+                attrs["signature"] = ("N" * k, "N" * k) if j % 2 else (gen.rand_dna(gen.rng_for("c05-base-sig", j, 0), k), gen.rand_dna(gen.rng_for("c05-base-sig", j, 1), k))
             elif rng.random() < 0.5:
                 attrs["signature"] = NotImplemented      # restated, as the bundled kit bases do
             # else: the family base merely inherits signature = NotImplemented from AbstractPart
